@@ -226,6 +226,16 @@ pub fn generate(rng: &mut Rng, thorough: bool) -> Vec<String> {
             v.push(format!("adddays {y1} {m1} {d1} {}", -k));
         }
     }
+    // (4c) the first and last days as UTC instants: start of day, midnight and noon given explicitly, through the
+    // +00:00 zone (the day-range check of the zone conversions sits exactly on the first and last whole days)
+    for day in [LO, LO + 1, LO + 2, LO + 3, HI - 3, HI - 2, HI - 1, HI] {
+        let (y, m, d) = ymd_of(day);
+        v.push(format!("tz_sod o:0 {y} {m} {d}"));
+        v.push(format!("tz_pdat o:0 {y} {m} {d} 0 0 0 0 0 0"));
+        v.push(format!("tz_pdat o:0 {y} {m} {d} 0 0 0 0 0 1"));
+        v.push(format!("tz_inst o:0 {y} {m} {d} 12 0 0 0 0 0 compatible"));
+        v.push(format!("tz_inst o:0 {y} {m} {d} 0 0 0 0 0 0 reject"));
+    }
     // (5) date-time <-> epoch ns
     let day_ns: i128 = 86_400_000_000_000;
     for _ in 0..(if thorough { 300_000 } else { 40_000 }) {
